@@ -528,6 +528,9 @@ impl Run {
             return;
         };
         let got = st.class_count(class);
+        if got < min.saturating_mul(2) && std::env::var("HV_REPORT_MARGINS").is_ok() {
+            eprintln!("MARGIN {} {name}: class '{class}' reached {got}, required {min}", self.property);
+        }
         if got < min {
             self.health_problems.push(format!(
                 "generator health: check {name}: class '{class}' reached {got} < {min} times"
